@@ -199,9 +199,22 @@ def r9_8(prog, chk):
                         work += c["c"]
                     elif c is not None:
                         conj.append(c)
+                # `count > 0 && n >= count`: the positivity guard and the comparison speak of the same announced count
+                positives = {_strip(c["c"][0]).get("d"): _strip(c["c"][0]).get("n") for c in conj
+                             if c["k"] == "BinOp" and c.get("op") == ">" and _strip(c["c"][1]) is not None and _strip(c["c"][1])["k"] == "Int" and
+                             _strip(c["c"][1])["v"] == 0 and _strip(c["c"][0]) is not None and _strip(c["c"][0])["k"] == "DeclRefExpr"}
                 for c in conj:
                     if c["k"] != "BinOp" or c.get("op") not in (">", ">=", "==", "<", "<="):
                         continue
+                    l0, r0 = _strip(c["c"][0]), _strip(c["c"][1])
+                    if l0 is not None and l0["k"] == "DeclRefExpr" and l0.get("d") in incs and r0 is not None and r0["k"] == "DeclRefExpr" and positives and \
+                            r0.get("d") not in positives and l0.get("d") not in positives:
+                        n += 1
+                        chk.analysed(f)
+                        chk.ob("R9.8", "%s: the limit `%s` of the count `%s` is the count whose positivity guards the test" % (f.name, r0["n"], l0["n"]), f.loc(c), False,
+                               detail="the test `%s` is made only when `%s > 0`, another count: when `%s` is set and `%s` is not, the stored values are no longer "
+                               "limited by the announced count" % (show(c)[:30], list(positives.values())[0], r0["n"], list(positives.values())[0]),
+                               key="R9.8|%s|guard of %s vs %s" % (f.name, l0["n"], r0["n"]))
                     l, r = _strip(c["c"][0]), _strip(c["c"][1])
                     if l is None or l["k"] != "DeclRefExpr" or l.get("d") not in incs or r is None or r["k"] == "Int":
                         continue
